@@ -37,8 +37,5 @@ def obligations(tier):
             o.append(gapov('GAP_w%d' % bits, bits, 2, 1, DMAX[bits], to, nmax=nm))
         if tier == 'thorough' or bits in quick_ov:
             o.append(gapov('OVERLAP_w%d' % bits, bits, 2, -(nm), -1, to, nmax=nm))
-    if tier == 'thorough':
-        for bits in WIDTHS:
-            nm = BLOCKS[bits] + 1
-            o.append(gapov('MIXED3_w%d' % bits, bits, 3, -(nm), min(DMAX[bits], 6), 3000, tiers=('thorough',), nmax=nm))
+    # Three-call sequences (gap or overlap between each pair, MIXED3_w*) returned no verdict in 3000 s / 9-12 GB per width: not claimed.
     return o
